@@ -710,7 +710,7 @@ func (e *engineA) fault(act string) {
 			}
 		}
 		var armed int32 = 1
-		e.rc.onNodeEvent = func(dir string, r *ev.Rec) {
+		e.rc.setOnNodeEvent(func(dir string, r *ev.Rec) {
 			if r.K == "state" && r.St != nil && r.St.State == "L" && atomic.CompareAndSwapInt32(&armed, 1, 0) {
 				for _, n := range live {
 					if n.dir == dir {
@@ -728,7 +728,7 @@ func (e *engineA) fault(act string) {
 					}
 				}
 			}
-		}
+		})
 		if l := e.cl.leader(); l != nil {
 			e.isolate(l, true)
 			e.sleepHB(3, 6)
@@ -736,7 +736,7 @@ func (e *engineA) fault(act string) {
 		} else {
 			e.sleepHB(3, 6)
 		}
-		e.rc.onNodeEvent = nil
+		e.rc.setOnNodeEvent(nil)
 		for _, a := range live {
 			for _, b := range live {
 				if a != b {
